@@ -18,6 +18,7 @@ import (
 	"errors"
 	"math"
 
+	"github.com/B1NARY-GR0UP/originium/pkg/vhook"
 	"github.com/B1NARY-GR0UP/originium/types"
 )
 
@@ -79,8 +80,10 @@ func (t *Txn) Commit() error {
 
 	commitTs, hasConflict := orc.newCommitTs(t)
 	if hasConflict {
+		vhook.Event("commit.conflict", t.readTs)
 		return ErrConflictTxn
 	}
+	vhook.Event("commit.ts", commitTs, t.readTs)
 
 	// TODO: support txn crush recovery (txnEnt and txnFin)
 
@@ -97,7 +100,9 @@ func (t *Txn) Commit() error {
 	}
 	t.db.rawset(entries...)
 
+	vhook.Event("commit.applied", commitTs)
 	orc.doneCommit(commitTs)
+	vhook.Event("commit.done", commitTs)
 
 	return nil
 }
